@@ -14,12 +14,14 @@ Definition show_obs (t : obs) : string :=
   | SawPlain v => "p" ++ show_val v
   | SawExc e => "x" ++ show_err e
   | Mark n => "m" ++ show_nat n
+  | Cancelled d => "c" ++ show_nat d
   end.
 
-(** input: body, outcomes of Deferreds 0..n-1 (others: value -1), pre-fired, schedule *)
-Definition run_show (c : stmt * list outcome * list nat * list nat) : string :=
-  let '(s, outs, pre, sched) := c in
-  let assign := fun d => nth d outs (Val (VInt (-1))) in
-  let '(st, w) := run assign pre (gen_of s) sched in
+(** input: body, (outcome, canceller) of Deferreds 0..n-1, pre-fired, schedule *)
+Definition run_show (c : stmt * list (outcome * cbeh) * list nat * list sop) : string :=
+  let '(s, ds, pre, sched) := c in
+  let assign := fun d => fst (nth d ds (Val (VInt (-1)), CNothing)) in
+  let canc := fun d => snd (nth d ds (Val (VInt (-1)), CNothing)) in
+  let '(st, w) := run assign canc pre (gen_of s) sched in
   String.concat " " (map show_obs (rev (seen w))) ++ " | " ++
   match st with Finished r => "R:" ++ show_outcome r | Suspended d _ => "S:" ++ show_nat d end.
